@@ -300,19 +300,23 @@ class Codec:
                     del repeating_groups[-1]
 
                 if tag in current_context.tags:
-                    # if the repeating group already contains this field,
-                    #     start the next
-                    current_context.parent.add_group(
-                        current_context.tag, current_context
-                    )
-                    ctx = _RepeatingGroupContext(
-                        current_context.tag,
-                        current_context.repeating_group_tags,
-                        current_context.parent,
-                    )
-                    del repeating_groups[-1]
-                    repeating_groups.append(ctx)
-                    current_context = ctx
+                    if repeating_groups:
+                        # if the repeating group already contains this field,
+                        #     start the next
+                        current_context.parent.add_group(
+                            current_context.tag, current_context
+                        )
+                        ctx = _RepeatingGroupContext(
+                            current_context.tag,
+                            current_context.repeating_group_tags,
+                            current_context.parent,
+                        )
+                        del repeating_groups[-1]
+                        repeating_groups.append(ctx)
+                        current_context = ctx
+                    else:
+                        # all groups are closed again: tag is repeated at top level
+                        value = RepeatingTagError
 
                 # else add it to the current one
                 current_context.set(tag, value)
